@@ -1,5 +1,6 @@
 from __future__ import annotations
 
+import re
 import typing as t
 from urllib.parse import quote
 
@@ -8,17 +9,39 @@ from ..exceptions import SecurityError
 from ..urls import uri_to_iri
 
 
+_host_name_re = re.compile(r"[A-Za-z0-9._-]+")
+_host_address_re = re.compile(r"\[[0-9A-Za-z:.%_~-]+\]")
+
+
 def _strip_port(host: str) -> str:
-    """Remove the port from a host. A bracketed IPv6 address contains colons
-    itself, the port follows the closing bracket.
+    """Remove the port from a host and encode the name as ASCII. A bracketed
+    IPv6 address contains colons itself, the port follows the closing bracket.
+
+    :raise ValueError: If the value is not a host name or bracketed address,
+        optionally followed by a colon and a numeric port.
     """
     if host.startswith("["):
         end = host.find("]")
 
-        if end != -1:
-            return host[: end + 1]
+        if end == -1:
+            raise ValueError("missing closing bracket")
 
-    return host.partition(":")[0]
+        name = host[: end + 1]
+        sep, port = host[end + 1 : end + 2], host[end + 2 :]
+
+        if sep not in {"", ":"} or _host_address_re.fullmatch(name) is None:
+            raise ValueError("invalid address")
+    else:
+        name, _, port = host.partition(":")
+        name = name.encode("idna").decode("ascii")
+
+        if _host_name_re.fullmatch(name) is None:
+            raise ValueError("invalid host name")
+
+    if port and not (port.isascii() and port.isdigit()):
+        raise ValueError("invalid port")
+
+    return name
 
 
 def host_is_trusted(hostname: str | None, trusted_list: t.Iterable[str]) -> bool:
@@ -34,8 +57,8 @@ def host_is_trusted(hostname: str | None, trusted_list: t.Iterable[str]) -> bool
         return False
 
     try:
-        hostname = _strip_port(hostname).encode("idna").decode("ascii")
-    except UnicodeError:
+        hostname = _strip_port(hostname)
+    except ValueError:
         return False
 
     if isinstance(trusted_list, str):
@@ -49,8 +72,8 @@ def host_is_trusted(hostname: str | None, trusted_list: t.Iterable[str]) -> bool
             suffix_match = False
 
         try:
-            ref = _strip_port(ref).encode("idna").decode("ascii")
-        except UnicodeError:
+            ref = _strip_port(ref)
+        except ValueError:
             return False
 
         if ref == hostname or (suffix_match and hostname.endswith(f".{ref}")):
